@@ -344,8 +344,11 @@ def run_case(desc, ctx):
                     bad(f"start index requested from [{e[1]}, {e[2]}) instead of [20, 65536)", w)
             if not ints:
                 bad("no start-index draw observed when the sampler was (re)seeded", w)
+            npint = bool(rng.random() < 0.3)      # batch sizes computed with numpy are numpy integers
+            if npint:
+                c["numpy_integer_batch_sizes"] = c.get("numpy_integer_batch_sizes", 0) + 1
             with quiet():
-                parts = [s1.sample_batch(n, space, np.zeros((0, d)), np.zeros(0)) for n in sizes]
+                parts = [s1.sample_batch(np.int64(n) if npint else n, space, np.zeros((0, d)), np.zeros(0)) for n in sizes]
                 whole = twin.sample_batch(sum(sizes), space, np.zeros((0, d)), np.zeros(0))
             got = np.vstack(parts)
             out["evals"] += 1
@@ -384,6 +387,27 @@ def run_case(desc, ctx):
 
     if kind == "lifecycle":
         run_lifecycle(rng, out, bad)
+        if desc["i"] % 4 == 0:
+            # seeds are arbitrary non-negative integers: one beyond 32 bits is a seed of its own, not its low 32 bits
+            # (6 pairs: all of them agreeing by chance has probability ~1e-29)
+            from black_it.samplers.halton import HaltonSampler
+
+            for cls in (HaltonSampler, RSequenceSampler):
+                space = fine_space(2)
+                same = []
+                seeds = [int(rng.integers(0, 2**32)) + (int(rng.integers(1, 2**31)) << int(rng.choice([32, 33, 40, 62, 96]))) for _ in range(6)]
+                for big in seeds:
+                    with quiet():
+                        a = cls(batch_size=2, random_state=big).sample_batch(2, space, np.zeros((0, 2)), np.zeros(0))
+                        b = cls(batch_size=2, random_state=big % 2**32).sample_batch(2, space, np.zeros((0, 2)), np.zeros(0))
+                        a2 = cls(batch_size=2, random_state=big).sample_batch(2, space, np.zeros((0, 2)), np.zeros(0))
+                    if not np.array_equal(a, a2):
+                        bad(f"{cls.__name__}: two objects constructed with the seed {big} start at different points", {"seed": big})
+                    same.append(bool(np.array_equal(a, b)))
+                    c["seeds_beyond_32_bits"] = c.get("seeds_beyond_32_bits", 0) + 1
+                out["evals"] += 1
+                if all(same):
+                    bad(f"{cls.__name__}: each of the seeds {seeds} starts the sequence exactly where its low 32 bits do - the start is not determined by the seed", {"seeds": seeds})
         return out
 
     # ---------------------------------------------------------------- rseq
